@@ -198,6 +198,8 @@ def collection_obligations(v, tname, dcls, acls, prop="C01"):
         obls.append(Obligation(f"{base}/save-returns", "post", [z3.BoolVal(True)]))
     saved_field_of = {}
     for k, (q, doc) in enumerate(res):
+        if k == 0:   # the save path is reachable under the run's hypotheses (guards the `save-raises` obligations against vacuity)
+            obls.append(Obligation(f"{base}/cover-save", "cover", list(ex.bg) + q.cond, expect="sat", inputs={"x": x}))
         pid = frozenset(c.get_id() for c in q.cond)
         events = [e for e in log if e["path"] <= pid]
         for ident, ref in adapters.items():
